@@ -51,7 +51,8 @@ def main():
                                    'first_signatures': sigs[:3]}
         json.dump(meta, open(d + '/meta.json', 'w'), indent=1)
         sh(f'rm -rf {out}; git -C {WT} checkout -- .')
-        print(name, 'DETECTED' if caught else ('NEUTRALISED' if meta.get('neutralised') else 'MISSED rc=%d' % r.returncode), sigs[:1])
+        print(name, 'DETECTED' if caught else ('NEUTRALISED' if meta.get('neutralised') else 'OUTSIDE-STATEMENT' if meta.get('outside_statement')
+                                               else 'MISSED rc=%d' % r.returncode), sigs[:1])
         summary.append((name, caught))
     print('detected %d of %d' % (sum(1 for _, c in summary if c), len(summary)))
 
